@@ -162,7 +162,7 @@ func Execute(p *Plan, scratch string) (res *Result) {
 		res.Infra = "env: " + err.Error()
 		return
 	}
-	defer env.Close()
+	defer env.Close() // idempotent; the normal path closes explicitly below and judges a hang
 	r := &Run{Plan: p, Prop: p.Property, Env: env, M: model.New(), Dir: dir, stats: res.Stats,
 		verIDs: map[string][]string{}, allIDs: map[string]bool{}, cs0: &clientState{}}
 	for range p.Clients {
@@ -221,12 +221,19 @@ func Execute(p *Plan, scratch string) (res *Result) {
 	case "deadlock":
 		r.setViol("deadlock", "deadlock: "+normGraph(sim.AbortDetail), "all requests complete", sim.AbortDetail)
 	case "wedged":
-		r.setViol("progress", "requests block behind a client that stopped sending its request body: "+normGraph(sim.AbortDetail), "other requests complete", sim.AbortDetail)
+		if strings.Contains(sim.AbortDetail, "bolt transaction") {
+			r.setViol("progress", "a request never completes: "+sim.AbortDetail, "requests complete", sim.AbortDetail)
+		} else {
+			r.setViol("progress", "requests block behind a client that stopped sending its request body: "+normGraph(sim.AbortDetail), "other requests complete", sim.AbortDetail)
+		}
 	case "step-budget":
 		r.setViol("progress", "no progress within the step budget", "request completes", sim.AbortDetail)
 	}
 	if !r.stopped() && sim.AbortReason == "" && p.Config.CrashAll {
 		r.guard(r.examineCrashes)
+	}
+	if err := r.Env.Close(); err == ErrCloseHung && r.viol == nil {
+		r.setViol("progress", "the store cannot be shut down: a bolt transaction was left open by an earlier request", "close completes", err.Error())
 	}
 	res.Stats.SimSeconds = env.Clock.Elapsed().Seconds()
 	res.Stats.StateFP = r.M.Fingerprint()
